@@ -105,6 +105,25 @@ T = {
     "C05c": ("C05", "the both-bound bucket of the rule join's hash table keeps one partial binding per (subject, object) key",
              "a premise whose subject and object are already bound, with two partial bindings that agree on them and differ in another variable",
              "C05-R9 (the rule join keeps every partial binding)", "missed by C05-R1..R8; C05-R9 added"),
+    "C07c": ("C07", "apply_inner / try_apply_inner get a literal-literal fast path that assembles the two-element decision node directly with the raw "
+                    "constructor, choosing prime and sub by variable number instead of vtree position",
+             "variables registered in non-ascending numeric order, a literal-literal apply on such a pair, and a further operation that meets one of the variables again",
+             "C07-R8 (decision nodes are built only through the canonicalising path)", "missed by C07-R1..R7 (both twins changed alike); C07-R8 added"),
+    "C08c": ("C08", "enumerate_proofs drops a search state when the same Or node was already branched on with an identical partial proof - the key ignores the "
+                    "state's remaining conjuncts",
+             "a hash-consed disjunction shared by two conjunctions and reached with the same partial proof but different pending conjuncts",
+             "C08-R6 (a seen-set that filters search states is keyed on the whole state)", "missed by C08-R1..R5; C08-R6 added"),
+    "C09c": ("C09", "CSPARQLWindow::flush drains active_windows instead of reading them",
+             "a flush in the middle of a stream followed by items that fall into an interval that was already open", "C09-R7 (who may change the open windows)",
+             "missed by C09-R1..R6; C09-R7 added"),
+    "C10c": ("C10", "SimpleR2R::add evicts last cycle's derived triples before the first item is loaded; materialize no longer evicts them",
+             "rules registered and a non-empty firing followed by an empty-window firing", "C10-R3 (the materialiser evicts and clears its record before reading the store)", None),
+    "C11c": ("C11", "the coordinator's drain loop files a drained result's raw content under the window IRI of the first result",
+             "multi-thread mode with cross-window rules and a second window's result pending when the coordinator wakes",
+             "C11-R6 (per-window bookkeeping is keyed by the result's own window)", "missed by C11-R1..R5; C11-R6 added"),
+    "C12c": ("C12", "incremental_sds_plus loads only facts whose predicate occurs in some rule body into the reasoner and passes the others through",
+             "an alive fact with a head-only predicate that is re-derived later with a shorter expiry",
+             "C12-R9 (every alive fact is known to the reasoner)", "missed by C12-R1..R8; C12-R9 added"),
     "C16b": ("C16", "sparql_aggregate returns the slice matched by the case-insensitive keyword helper instead of the canonical literal",
              "an aggregate keyword not written in upper case", "C16-R4 (keyword text never reaches the tree)",
              "missed by C16-R1..R3 (C01-R1 fired only through a floor, for the wrong reason); C16-R4 added, C01-R1 reads constant tables"),
